@@ -309,6 +309,13 @@ class SymArr(np.ndarray):
         if out is not None:
             o = out[0] if isinstance(out, tuple) else out
             if o is not None:
+                if isinstance(o, np.ndarray) and o.dtype != object:
+                    if isinstance(res, np.ndarray) and contains_sym(res):
+                        # `float_array += symbolic`: the target cannot hold symbolic values; Python rebinds the
+                        # name to whatever __iadd__ returns, so hand back a new symbolic array instead
+                        return res
+                    o[...] = np.array(_plain(res).tolist(), dtype=o.dtype) if isinstance(res, np.ndarray) else res
+                    return o
                 o.view(np.ndarray)[...] = res
                 return o
         return res
